@@ -29,7 +29,9 @@ MNext ==
        \/ w \in 12..15  /\ \E dd \in {IF DOMAIN byDenom # {} /\ Pick(1..4) # 1 THEN Pick(DOMAIN byDenom) ELSE d} :
                              Step(ConvertCoinEff(dd, a, r), "ConvertCoin", ConvertCoinOK(dd, a, r), [d |-> dd, amt |-> a, recv |-> r])
        \/ w \in 16..20  /\ \E p \in {IF pairs # {} /\ Pick(1..4) # 1 THEN Pick(pairs) ELSE [erc20 |-> c, denoms |-> <<d>>]} :
-                           \E dd \in {IF Pick(1..5) = 1 THEN d ELSE p.denoms[Pick(DOMAIN p.denoms)]} :
+                           (* mostly a denomination of the pair; sometimes one registered to ANOTHER pair, or any *)
+                           \E dd \in {IF Pick(1..5) = 1 THEN (IF (DOMAIN byDenom) \ SeqToSet(p.denoms) # {} /\ Pick(1..2) = 1 THEN Pick((DOMAIN byDenom) \ SeqToSet(p.denoms)) ELSE d)
+                                       ELSE p.denoms[Pick(DOMAIN p.denoms)]} :
                              Step(ConvertERC20Eff(p.erc20, dd, a, r), "ConvertERC20", ConvertERC20OK(p.erc20, dd, a, r), [c |-> p.erc20, d |-> dd, amt |-> a, recv |-> r])
   /\ hist' = Append(hist, last')
 MSpec == MInit /\ [][MNext]_<<vars, hist>>
